@@ -48,6 +48,15 @@ TraceSkippedOp ==    \* reads of an image whose treatment is unspecified, or tha
   /\ Trace[l].err # "panic"
   /\ UNCHANGED <<cfg, total, pos, ok>>
 
+(* The underlying file ended early during this call (C10: "underlying reads   *)
+(* cut at arbitrary points"): fewer bytes and an error are in order - wrong   *)
+(* bytes are not, and the cursor still follows what was returned.            *)
+CutCallOK(e, p, match) ==
+  /\ match
+  /\ e.k >= 0 /\ e.k <= e.n
+  /\ e.tell = (IF e.op = "read" THEN PAdd(p, P(e.k)) ELSE p)
+  /\ (e.k > 0 => e.at = (IF e.op = "read" THEN p ELSE e.off))
+
 TraceEncOp ==
   /\ IsEvent("EncOp")
   /\ ok
@@ -55,7 +64,8 @@ TraceEncOp ==
          p == e.before
          match == SegsOK(cfg, e.segs)
      IN /\ e.err # "panic"
-        /\ CASE e.op = "read"   -> ReadOK(total, p, e.n, e.k, e.err, e.at, match, e.tell)
+        /\ CASE e.under /\ e.op \in {"read", "readat"} -> CutCallOK(e, p, match)
+             [] e.op = "read"   -> ReadOK(total, p, e.n, e.k, e.err, e.at, match, e.tell)
              [] e.op = "readat" -> ReadAtOK(total, p, e.n, e.off, e.k, e.err, e.at, match, e.tell)
              [] e.op = "seek"   -> SeekOK(total, p, e.off, e.whence, e.ret, e.err, e.tell)
         /\ (e.fresh \/ p = pos)
